@@ -371,7 +371,7 @@ pub fn run(rec: &mut Rec, rng: &mut Rng, thorough: bool) {
     }
     // URIs built from whole tokens: the scheme prefix (and near misses of it) can occur AGAIN inside the authority or the path
     rec.case("uri-tokens");
-    let toks: [&str; 12] = ["http://", "http:/", "http:", "HTTP://", "https://", "/", "//", "a", "host", ":", ".", "\u{e9}"];
+    let toks: [&str; 16] = ["http://", "http:/", "http:", "HTTP://", "https://", "/", "//", "a", "host", ":", ".", "\u{e9}", "@", "u:p@", "?q=@", "#f"];
     for _ in 0..(if thorough { 100000 } else { 8000 }) {
         let mut u = String::new();
         if rng.chance(2, 3) {
